@@ -1,7 +1,7 @@
 CHECKS = [
     entry("C01", "collector",
           technique="property-based testing (rapid): generated span/tick/reload/eject schedules on the real collector in a testing/synctest bubble; all-or-none oracle per trace with rename-and-retry",
-          quick=dict(checks=400, budget_s=50),
+          quick=dict(checks=700, budget_s=70),
           thorough=dict(checks=8000, shards=16, budget_s=540),
           level_text="Generated interleavings of span arrivals (root/child/event/link, late), send ticks, sampler reloads and memory ejections, for 1-5 workers and six sampler kinds, executed on the real InMemCollector under virtual time; per trace the forwarded set must be all-or-none. A third of the cases run with a tiny kept-decision capacity; a reference model of the per-worker kept LRU (recency bumped by decisions and late-span lookups, order preserved by the resize a reload performs) decides which decisions are still remembered, traces whose decision legitimately aged out are not judged. Exploration of schedules, not a proof.",
           level_note="Virtual time (testing/synctest) replaces the wall clock; upstream transmission replaced by a recording double; MockConfig supplies settings; premises of the statement (stable membership, no stress toggling, decision still remembered) hold by construction."),
